@@ -28,6 +28,7 @@ const (
 	hvConnApprove
 	hvConnAbort
 	hvDial
+	hvDialFailed
 )
 
 type hEvent struct {
@@ -166,6 +167,7 @@ func vDial(h *Hub, remoteService *api.ServiceDetails, host, port, path string) e
 	lg := h.mdns.(*vMdns).log
 	lg.add(hEvent{Kind: hvDial, S: remoteService.SKI(), B: remoteService.Trusted(), A: int(remoteService.ConnectionStateDetail().State())})
 	if zzvrt.Bool("dial.fails") {
+		lg.add(hEvent{Kind: hvDialFailed, S: remoteService.SKI()})
 		return errors.New("dial failed")
 	}
 	return nil
